@@ -32,6 +32,13 @@ CLAIMED = {
          "(0<=n<10^6): on every feasible path the outcome is ValueError or (alg valid for role, N>=1, N=1 iff zero algorithm, N is the number "
          "in the name, bare N>1 gets the role default, given algorithm kept), two numbers / two algorithm tokens are rejected, and re-parsing "
          "alg_N gives the same pair. Any other exception is a violation.", "§5 C17"),
+ "C04": ("Qhull is stubbed by its contract; everything molgri does around it is executed for real. Fold harness: for N=2,3 (all antipodally "
+         "invariant adjacency patterns) and N=4 (seeded 1/8 of the 4096 patterns in quick, all in thorough) and ALL positive border/distance values, "
+         "the folded N x N matrices have empty diagonal, are symmetric, equal ite(A_ij!=0, A_ij, A_{i,j+N}) (adjacent iff some pair of "
+         "representatives is), and the three properties share one stored pattern. Assembly harness: the generic pair loop yields symmetric, "
+         "empty-diagonal matrices on one pattern for arbitrary callback values (this discharges the contract the fold assumes). Distance harness: for "
+         "ALL unit quaternions the sign-folded distance equals acos|p.q|, is symmetric and invariant under q->-q (staged lemmas: norms, Cauchy-Schwarz, "
+         "acos axioms).", "§5 C04"),
 }
 NA = {
  "C03": "Claim is that Qhull's SphericalVoronoi regions/areas are the true nearest-neighbour cells: compiled geometry with no encodable source; a stub would assume the property (the symmetric assembly around it is verified under C04).",
